@@ -126,14 +126,26 @@ static Scenario make_scenario(int idx, bool concurrent)
                 });
             };
             s.after = [og](bool, long) {
-                auto h = og->lock_shared();  // completes only if the aborted call released its lock
-                Win w(*h, false);
-                h->check("after throw");
+                {
+                    auto h = og->lock_shared();  // completes only if the aborted call released its lock
+                    Win w(*h, false);
+                    h->check("after throw");
+                }
+                // ... and the wrapper works as before for the thread that caught the exception: its next modification is
+                // exclusive again (the partner may be inside its own at this very moment)
+                og->modify([](Cell& c) {
+                    Win w(c, true);
+                    vrf::user_point();
+                    c.append_raw(6);
+                    vrf::user_point();
+                });
             };
             s.partner = [og] {
                 og->modify([](Cell& c) {
                     Win w(c, true);
+                    vrf::user_point();
                     c.append_raw(99);
+                    vrf::user_point();
                 });
                 auto h = og->lock_shared();
                 Win w(*h, false);
@@ -143,7 +155,7 @@ static Scenario make_scenario(int idx, bool concurrent)
                 auto h = og->lock_shared();
                 auto v = h->log();
                 bool want5 = (idx <= 2) && !threw;
-                if (has(v, 5) != want5 || (concurrent && !has(v, 99))) vio("oracle:object_state_wrong_after_throw", name, vrf::jnums(v));
+                if (has(v, 5) != want5 || !has(v, 6) || (concurrent && !has(v, 99))) vio("oracle:object_state_wrong_after_throw", name, vrf::jnums(v));
             };
             break;
         }
